@@ -77,7 +77,6 @@ InitB(PermSet, AS, CLS, MS1, MS2, MC, MK, SS2, SC) ==
 BB == [1..2 -> BOOLEAN]
 (* (reference of main.o to m, kind of the second file) *)
 MK3 == {<<0, "obj">>, <<0, "member">>, <<1, "member">>}
-MK4 == MK3 \cup {<<2, "member">>}
 
 Perms4 == Perms(1..4)
 (* main.o before the second regular file *)
@@ -85,7 +84,7 @@ Perms4MainFirst == {p \in Perms4 : (CHOOSE i \in 1..4 : p[i] = 1) < (CHOOSE i \i
 
 (* quick: main.o before the second file, at least one library under --as-needed *)
 InitBQuick == InitB(Perms4MainFirst, BB \ {<<FALSE, FALSE>>}, BB \ {<<FALSE, TRUE>>}, {0, 1}, {0}, 0..2, MK3, {0, 1}, {0, 1})
-InitBFull == InitB(Perms4, BB, BB, 0..2, {0}, 0..2, MK4, 0..2, 0..2)
+InitBFull == InitB(Perms4, BB, BB, 0..2, {0}, 0..2, MK3, {0, 1}, 0..2)
 InitBTiny == InitB({<<3, 1, 4, 2>>, <<1, 3, 2, 4>>}, BB, BB, {0, 1}, {0}, {0, 1}, MK3, {0}, {0, 1})
 
 -----------------------------------------------------------------------------
@@ -107,7 +106,7 @@ MkC(perm, a, cl, creg, mr) ==
 
 InitC(MS3) ==
     \E perm \in Perms4, a \in [1..3 -> BOOLEAN], cl \in [1..3 -> BOOLEAN], creg \in 0..1 :
-    \E ms1 \in 0..2, ms2 \in 0..2, ms3 \in MS3, mc \in 0..2 :
+    \E ms1 \in {0, 1}, ms2 \in {0, 1}, ms3 \in MS3, mc \in 0..2 :
        LET mr == [s1 |-> ms1, s2 |-> ms2, s3 |-> ms3, c |-> mc] IN
        /\ creg = 1 => mc = 0
        /\ mc = 1 => (cl[1] \/ cl[2] \/ cl[3] \/ creg = 1)
